@@ -670,7 +670,7 @@ impl Property for C09 {
         Isolation::Thread
     }
     fn cases(&self, tier: Tier) -> u32 {
-        tier.pick(6_000, 200_000)
+        tier.pick(40_000, 1_500_000)
     }
     fn strategy(&self, tier: Tier) -> BoxedStrategy<Case> {
         let s = || 0u8..NSLOT as u8;
